@@ -1450,6 +1450,9 @@ def _process_syntax_quoted_form(
     elif _is_unquote_splicing(form):
         raise ctx.syntax_error("Cannot splice outside collection")
     elif isinstance(form, llist.PersistentList):
+        if len(form) == 0:
+            # `(seq (concat))` would be nil, but the empty list is a list
+            return llist.l(_LIST)
         return llist.l(_SEQ, lconcat(_expand_syntax_quote(ctx, form)))
     elif isinstance(form, vec.PersistentVector):
         return llist.l(_APPLY, _VECTOR, lconcat(_expand_syntax_quote(ctx, form)))
